@@ -20,7 +20,7 @@ CurrentChoiceOf(o) ==
   IN IF Method(o) \in {"majorityHeuristic", "satisfactionHeuristic"} /\ Has(mp, "currentChoice")
         /\ mp.currentChoice # ""
      THEN {mp.currentChoice} ELSE {}
-ExpectedSet(o) == SeqSet(o.case.req.choseToMake) \cup CurrentChoiceOf(o)
+ExpectedSet(o) == (IF Has(o.case.req, "choseToMake") THEN SeqSet(o.case.req.choseToMake) ELSE {}) \cup CurrentChoiceOf(o)
 
 C01(o) ==
   IF WellFormed(Res(o), ExpectedSet(o)) THEN {}
@@ -77,10 +77,14 @@ StX(st) == [a \in AltIdsOf(StAllAlts(st)) |-> AltById(StAllAlts(st), a).criteria
 MajCtx(st) == [C |-> StCritIds(st), w |-> st.params.Weights, ty |-> StType(st), x |-> StX(st)]
 MajPolicy(st) == IF st.params.DrawResolution = "" THEN "allow" ELSE st.params.DrawResolution
 ConsideredSeq(st) == [k \in DOMAIN st.considered |-> st.considered[k].id]
-MajFixedOrder(st) ==
+(* the fixed walk / search order is the order in which the request lists choseToMake (case.listed, set by the *)
+(* orchestrator when the request names distinct alternatives); the considered set itself is C01's / C07's business *)
+ListedSeq(o, st) ==
+  IF Has(o.case, "listed") /\ SeqSet(o.case.listed) = SeqSet(ConsideredSeq(st)) THEN o.case.listed ELSE ConsideredSeq(st)
+MajFixedOrder(o, st) ==
   LET cur == st.params.CurrentChoice IN
-  IF cur = "" THEN ConsideredSeq(st)
-  ELSE <<cur>> \o SelectSeq(ConsideredSeq(st), LAMBDA a : a # cur)
+  IF cur = "" THEN ListedSeq(o, st)
+  ELSE <<cur>> \o SelectSeq(ListedSeq(o, st), LAMBDA a : a # cur)
 
 ObsEntries(res) == [k \in DOMAIN res |->
    [id |-> res[k].alternative.id, value |-> res[k].evaluation.value,
@@ -94,8 +98,8 @@ RefEntries(r) == [k \in DOMAIN r |-> [id |-> r[k].id, value |-> r[k].value, cmp 
 MajRef(st, order, pol, ch) == MRanking(MFinish(MRun(MInit(order), MajCtx(st), pol, ch)))
 
 (* all search orders the heuristic may use: the current choice (if any) first *)
-MajOrders(st) ==
-  IF ~st.params.RandomAlternativesOrdering THEN {MajFixedOrder(st)}
+MajOrders(o, st) ==
+  IF ~st.params.RandomAlternativesOrdering THEN {MajFixedOrder(o, st)}
   ELSE LET cur == st.params.CurrentChoice
            rest == SeqSet(ConsideredSeq(st)) \ {cur}
        IN IF cur = "" THEN PermsOf(rest) ELSE {<<cur>> \o p : p \in PermsOf(rest)}
@@ -118,7 +122,7 @@ C11(o) ==
         /\ IndexOf(ids, e.cmp) < k
         /\ (e.cmp \in RLinks(res[k]) => (pol = "allow" /\ e.value = e.cmpValue))
       fixed == ~st.params.RandomAlternativesOrdering
-      ord == MajFixedOrder(st)
+      ord == MajFixedOrder(o, st)
       (* with a known search order a drawn comparison must be decided by the policy *)
       drawOK(k) ==
         LET e == es[k] IN
@@ -132,7 +136,7 @@ C11(o) ==
           \cup (IF \A k \in 2..n : es[k].cmp = "" \/ entryOK(k) THEN {} ELSE {Fail("C11", "entry", "")})
           \cup (IF \A k \in 1..n : drawOK(k) THEN {} ELSE {Fail("C11", "draw-policy", "")})
           \cup (IF ~searchable THEN {}
-                ELSE IF \E order \in MajOrders(st) : \E ch \in MajChoices(st, n) :
+                ELSE IF \E order \in MajOrders(o, st) : \E ch \in MajChoices(st, n) :
                           Determined(RefEntries(MajRef(st, order, pol, ch))) = Determined(es)
                 THEN {} ELSE {Fail("C11", "reference", "")})
           \cup (IF searchable /\ fixed /\ pol # "random" /\ NoDup(ids)
@@ -160,7 +164,7 @@ AEWeights(st) == st.params.Weights
 AECritOrders(st) ==
   LET w == AEWeights(st) IN
   {p \in PermsOf(StCritIds(st)) : \A k \in 1..(Len(p) - 1) : w[p[k]] >= w[p[k+1]]}
-AEOrders(st) == IF st.params.RandomAlternativesOrdering THEN PermsOf(SeqSet(ConsideredSeq(st))) ELSE {ConsideredSeq(st)}
+AEOrders(o, st) == IF st.params.RandomAlternativesOrdering THEN PermsOf(SeqSet(ConsideredSeq(st))) ELSE {ListedSeq(o, st)}
 AECtx(st, levels, corder) == [levels |-> levels, corder |-> corder, ty |-> StType(st), x |-> StX(st)]
 AEObs(res) == [k \in DOMAIN res |->
    [id |-> res[k].alternative.id, level |-> res[k].evaluation.thresholdsIndex, thr |-> res[k].evaluation.notSatisfiedThreshold]]
@@ -168,12 +172,11 @@ AERefKey(e) == [id |-> e.id, level |-> e.level, crits |-> IF e.crit = "" THEN {}
                 thr |-> IF e.crit = "" THEN 0 ELSE e.thr]
 AEObsKey(e) == [id |-> e.id, level |-> e.level, crits |-> DOMAIN e.thr,
                 thr |-> IF DOMAIN e.thr = {} THEN 0 ELSE e.thr[CHOOSE c \in DOMAIN e.thr : TRUE]]
-(* equal up to the order inside one elimination class (same check) and among the survivors *)
+(* the exact sequence: survivors in walk order, then the eliminated in reverse order of elimination (inside one *)
+(* check the walk order of the alternatives decides)                                                          *)
 AEMatches(ref, obs) ==
   /\ Len(ref) = Len(obs)
-  /\ \A p \in DOMAIN ref :
-        LET cls == {q \in DOMAIN ref : ref[q].chk = ref[p].chk} IN
-        {AERefKey(ref[q]) : q \in cls} = {AEObsKey(obs[q]) : q \in cls}
+  /\ \A p \in DOMAIN ref : AERefKey(ref[p]) = AEObsKey(obs[p])
 
 C12(o) ==
   LET st == EvalState(o)
@@ -210,7 +213,7 @@ C12(o) ==
      ELSE (IF \A k \in DOMAIN obs : elimOK(obs[k]) THEN {} ELSE {Fail("C12", "entry", "")})
           \cup (IF shapeOK THEN {} ELSE {Fail("C12", "shape", "")})
           \cup (IF ~searchable THEN {}
-                ELSE IF \E order \in AEOrders(st) : \E co \in AECritOrders(st) :
+                ELSE IF \E order \in AEOrders(o, st) : \E co \in AECritOrders(st) :
                           AEMatches(AERanking(AERun(AEInit(order), AECtx(st, levels, co))), obs)
                 THEN {} ELSE {Fail("C12", "reference", "")})
           \cup (IF \A k \in DOMAIN obs : DOMAIN obs[k].thr = {} \/
@@ -225,8 +228,8 @@ SWorst(st) == [c \in StCritIds(st) |->
 SCtx(st, levels) == [levels |-> levels, C |-> StCritIds(st), ty |-> StType(st), x |-> StX(st), worst |-> SWorst(st)]
 SObs(res) == [k \in DOMAIN res |->
    [id |-> res[k].alternative.id, level |-> res[k].evaluation.thresholdsIndex, thr |-> res[k].evaluation.satisfiedThresholds]]
-SOrders(st) ==
-  IF ~st.params.RandomAlternativesOrdering THEN {MajFixedOrder(st)}
+SOrders(o, st) ==
+  IF ~st.params.RandomAlternativesOrdering THEN {MajFixedOrder(o, st)}
   ELSE LET cur == st.params.CurrentChoice
            rest == SeqSet(ConsideredSeq(st)) \ {cur}
        IN IF cur = "" THEN PermsOf(rest) ELSE {<<cur>> \o p : p \in PermsOf(rest)}
@@ -261,7 +264,7 @@ C13(o) ==
      ELSE (IF \A k \in DOMAIN obs : entryOK(obs[k]) THEN {} ELSE {Fail("C13", "entry", "")})
           \cup (IF orderOK THEN {} ELSE {Fail("C13", "order", "")})
           \cup (IF ~searchable THEN {}
-                ELSE IF \E order \in SOrders(st) :
+                ELSE IF \E order \in SOrders(o, st) :
                           SMatches(SRanking(SRun(SInit(order), ctx), ctx), obs, nlev)
                 THEN {} ELSE {Fail("C13", "reference", "")})
           \cup (IF \A k \in DOMAIN obs : obs[k].level >= nlev \/ \E li \in DOMAIN levels : SameMap(obs[k].thr, levels[li])
@@ -297,7 +300,7 @@ ERef(o, st, tc) ==
       asc == DistilP(P, A, s, MaxCred(M, A), 1, "asc", FALSE)
       dr == DistilP(P, A, s, MaxCred(M, A), 1, "desc", FALSE)
       mx == SetMax({dr[a] : a \in A})
-  IN [asc |-> asc, desc |-> [a \in A |-> mx + 1 - dr[a]], fragile |-> FragileX(M, InexactMatrix(ECrs(st), StX(st), A, tc), A, s)]
+  IN [asc |-> asc, desc |-> [a \in A |-> mx + 1 - dr[a]], fragile |-> BigDen(M, A) \/ FragileX(M, InexactMatrix(ECrs(st), StX(st), A, tc), A, s)]
 
 (* stage 1: the recorded credibility matrix (hook H2, integers of 1e-6) against the exact rationals; entries whose *)
 (* denominator would overflow TLC's integers are skipped                                                        *)
